@@ -1,4 +1,5 @@
 CONSTANTS CMAX = 5
+WLO = 5
 KS = 2
 MaxCalls = 5
 Sticky = TRUE
